@@ -211,3 +211,6 @@ class Nameplate:
     S5B.upon(lost, enter=S5A, outputs=[])
     S5.upon(release, enter=S5, outputs=[])  # mailbox is lazy
     S5.upon(close, enter=S5, outputs=[])
+    # the code can show up after close(), e.g. the server's "allocated"
+    # response to allocate_code() racing with it: there is nothing to claim
+    S5.upon(_set_nameplate, enter=S5, outputs=[])
